@@ -1,10 +1,17 @@
 #!/bin/sh
 # seedrun.sh <patch.diff> <Cxx> [Cyy ...]: apply a seeded change to /repo, run the checks, undo it.
+# The evidence files describe the UNCHANGED tree: the run on the changed tree rewrites them, so they are saved first and put
+# back afterwards (what the check said about the changed tree is on stdout and under /verif/replays).
 P="$1"; shift
 cd /repo || exit 3
 git diff --quiet || { echo "repo dirty"; exit 3; }
 git apply "$P" || { echo "patch does not apply"; exit 3; }
+B=/verif/.cache/evidence-before-seedrun.$$
+mkdir -p "$B"
 for id in "$@"; do
+  [ -f /verif/evidence/$id.json ] && cp /verif/evidence/$id.json "$B/$id.json"
   (cd /verif && ./check "$id" --tier quick ${SEED_ARGS}); echo "  -> $id rc=$?"
+  [ -f "$B/$id.json" ] && cp "$B/$id.json" /verif/evidence/$id.json
 done
-git -C /repo checkout -- . 
+rm -r "$B"
+git -C /repo checkout -- .
